@@ -29,7 +29,8 @@ Record Good (c : cfg) (st : state) : Prop := mkGood {
   g_arrlen : forall n d els, lookup n (arrs st) = Some (d, els) -> 0 <= d /\ length els = Z.to_nat (d + 1);
   g_acur : acur st = fold_right Z.add 0 (map (fun '(n, (d, _)) => array_mem d) (arrs st));
   g_stack : forall fr o, In fr (stack st) -> In o fr -> obj_ok c st o;
-  g_tvals : forall o, In o (tvals st) -> obj_ok c st o
+  g_tvals : forall o, In o (tvals st) -> obj_ok c st o;
+  g_cfg : code_start c <= var_start c
 }.
 
 (* ---------- membership in the root list ---------- *)
@@ -162,6 +163,7 @@ Proof.
   - unfold Jinv. pose proof (g_j1 _ _ G) as H1. destruct (tmp st) as [t|] eqn:Et; [|exact I].
     split; [exact H1|]. intros l Hl Hj Hp Hv. destruct (Hroot l Hl) as (_ & _ & HJ).
     eapply Jp_of_tmp; eauto.
+  - exact (g_cfg _ _ G).
 Qed.
 
 (* ---------- Inv -> Good, given the shape of a Good state ---------- *)
@@ -284,6 +286,7 @@ Proof.
       apply in_temp_roots. exists k, o. auto.
     + intros _. simpl. rewrite (nth_error_nth' _ _ (ONum 0 0) _ Hk).
       split; [reflexivity|]. intros n p ->. rewrite Hk. eauto.
+  - exact (inv_cfg _ _ HI).
 Qed.
 
 (* ---------- pointwise relation between two states whose pointers may have been relocated ---------- *)
@@ -419,14 +422,14 @@ Lemma deref_ext c st st' p :
 Proof.
   destruct p as [l a]. unfold ptr_ok, deref. simpl. intros Hok Hext.
   destruct (l =? 0) eqn:El; [reflexivity|]. destruct (var_start c <=? a) eqn:Ea; [|reflexivity].
-  apply Z.leb_le in Ea. apply Z.eqb_neq in El. destruct (Hok Ea) as [H|(bs & Hl & _)]; [contradiction|].
+  apply Z.leb_le in Ea. apply Z.eqb_neq in El. destruct (proj1 Hok Ea) as [H|(bs & Hl & _)]; [contradiction|].
   rewrite Hl, (Hext _ _ Hl). reflexivity.
 Qed.
 
 Lemma ptr_ok_ext c st st' p :
   ptr_ok c st p -> (forall a bs, lookup a (strs st) = Some bs -> lookup a (strs st') = Some bs) -> ptr_ok c st' p.
 Proof.
-  unfold ptr_ok. intros Hok Hext Hv. destruct (Hok Hv) as [H|(bs & Hl & Hz)]; [left; exact H|right; eauto].
+  unfold ptr_ok. intros [Hok Hf] Hext. split; [|exact Hf]. intros Hv. destruct (Hok Hv) as [H|(bs & Hl & Hz)]; [left; exact H|right; eauto].
 Qed.
 
 (* ---------- the collector on Good states ---------- *)
@@ -452,7 +455,7 @@ Proof.
         destruct (get_loc st l) as [len a] eqn:E0. destruct (get_loc st' l) as [len' a'] eqn:E1. simpl in *.
         subst len'. unfold deref. destruct (len =? 0) eqn:El; [reflexivity|]. apply Z.eqb_neq in El.
         assert (Hp : 0 < len).
-        { pose proof (inv_roots _ _ HI l Hl) as Hok. rewrite E0 in Hok. destruct (Hok Hc') as [H0|(bs & Hl0 & Hz0)]; [simpl in H0; contradiction|].
+        { pose proof (inv_roots _ _ HI l Hl) as Hok. rewrite E0 in Hok. destruct (proj1 Hok Hc') as [H0|(bs & Hl0 & Hz0)]; [simpl in H0; contradiction|].
           apply (chain_lookup _ _ _ _ _ (inv_chain _ _ HI)) in Hl0. simpl in *. lia. }
         destruct (Hb Hp) as (bs & Hl0 & _ & Hl1).
         destruct (Inv_bound_ge _ _ _ _ HI' Hl1) as [Hv' _].
